@@ -289,11 +289,11 @@ PROPS["C16"] = retention("C16", "Iggy.Props.C16", ["figures-"], {"figures"}, ASS
 import gen_catalog
 
 
-def catalog(prop, module, spec_prefixes, corr_kinds, assumptions, n_quick=350, n_thorough=3500):
+def catalog(prop, module, spec_prefixes, corr_kinds, assumptions, n_quick=350, n_thorough=3500, more_modules=None):
     def run(p, tier, seed, replay, t0):
         return run_node_property(p, tier, seed, replay, t0, module=module, gen=gen_catalog.gen,
                                  n_quick=n_quick, n_thorough=n_thorough, spec_prefixes=spec_prefixes,
-                                 corr_kinds=corr_kinds, assumptions=assumptions)
+                                 corr_kinds=corr_kinds, assumptions=assumptions, more_modules=more_modules)
     return {"run": run}
 
 
@@ -572,7 +572,7 @@ PROPS["C05"] = {"run": lambda p, tier, seed, replay, t0: run_node_property(
                             "create-pat", "delete-pat", "pats", "login", "login-pat"},
     assumptions=ASSUME_NODE)}
 PROPS["C06"] = catalog("C06", "Iggy.Props.C06", ["obs-changed", "poll-", "group-", "get-offset", "store-offset", "offset-"],
-                       CAT_KINDS | {"offsets"}, ASSUME_NODE)
+                       CAT_KINDS | {"offsets"}, ASSUME_NODE, more_modules=["Iggy.Props.Frame"])
 
 import gen_crypto
 PROPS["C19"] = {"run": lambda p, tier, seed, replay, t0: run_node_property(
@@ -609,14 +609,14 @@ def run_c04(prop, tier, seed, replay, t0):
     obligations = len(names) + examples
     vlib.build_harness()
     known = [k for k in vlib.load_known() if k["property"] == prop]
-    n = 40 if tier == "quick" else 160
+    n = 40 if tier == "quick" else 64
 
     def torn_points(length, rng, thorough):
         if length <= 1:
             return []
         pts = {1, 23, 24, 25, length - 1} | {rng.randint(1, length - 1) for _ in range(3)}
         if thorough:
-            pts |= set(range(1, min(length, 72)))
+            pts |= set(range(1, min(length, 49)))
         return sorted(j for j in pts if 0 < j < length)
 
     def one(k):
@@ -734,7 +734,7 @@ def run_c04(prop, tier, seed, replay, t0):
     coverage = {
         "obligations": obligations, "discharged": obligations if not bad else 0,
         "checker_cmd": f"lake build {module} judge && lake env lean Iggy/Audit/C04.lean (#print axioms)",
-        "trusted_base": COMMON_TB + ["hook H2b (file-mutation events) + the harness's directory copy at every event; thorough tier: every event x every torn length up to 71 bytes (and L-1) of an append"],
+        "trusted_base": COMMON_TB + ["hook H2b (file-mutation events) + the harness's directory copy at every event; thorough tier: every event x every torn length up to 48 bytes (and L-1) of an append"],
         "theorems": names, "nonvacuity_examples": examples, "axioms_used": axioms,
         "traces_validated_against_impl": len(results), "evaluations": images,
         "distinct_nontrivial": len({(r[1]["save"], r[1]["seg"], r[5], r[6]) for r in results}),
